@@ -1,7 +1,8 @@
 '''Thorough tier: (1) the quick rules again, (2) explicit path enumeration - every reachability verdict the
 rules relied on is re-decided by enumerating paths one by one (each CFG node visited at most twice, i.e.
-loops taken 0, 1 and 2 times) and compared with the graph-search verdict, (3) the mutation sweep of
-sa/sweep.py (single-edit variants of the current source analysed as in-memory overlays).'''
+loops taken 0, 1 and 2 times) and compared with the graph-search verdict, (3) the self-validation of
+sa/sweep.py: the rules stay silent on nine behaviour-preserving twins of the current tree and report every recorded seeded
+change that still applies to it (in-memory overlays; informational).'''
 import time
 
 from . import pathrules as pr
